@@ -48,7 +48,7 @@ def parseFS (s : String) : Option FileSys :=
     | [k, v] => (unhex v).map (fun b => (k.toUTF8.toList, b))
     | _ => none)
 
-/-- `files <ast> <mode> <filename> <fs before>` -/
+/-- `files <ast> <mode> <filename[,filename…]> <fs before>` -/
 def handleC05 (op : String) (fields : List String) : Option String :=
   if op != "files" then none else
   match fields with
@@ -58,7 +58,7 @@ def handleC05 (op : String) (fields : List String) : Option String :=
       match genProgram cmds {} with
       | .error _ => some "RES GENERR"
       | .ok bc =>
-        match runFiles 20000 400000 md fname.toUTF8.toList bc fs with
+        match runFilesL 20000 400000 md ((fname.splitOn ",").map (·.toUTF8.toList)) bc fs with
         | some (.ok (ms, fs')) => some ("RES " ++ resStr (some (.ok ms)) ++ "\tFS " ++ fsStr fs')
         | some (.panic _) => some "RES PANIC"
         | _ => some "RES DIVERGE"
